@@ -88,8 +88,9 @@ M = [
  ("c12-process-stale-id", "C12", "agent.go", "event := Event{\n\t\tTransactionID: m.TransactionID,\n\t\tMessage:       m,\n\t}\n\ta.mux.Lock()", "event := Event{\n\t\tMessage: m,\n\t}\n\tcopy(event.TransactionID[:11], m.TransactionID[:11])\n\ta.mux.Lock()"),
  # C15
  ("c15-second-close-nil", "C15", "client.go", "\tif c.closed {\n\t\tc.mux.Unlock()\n\n\t\treturn ErrClientClosed\n\t}\n\tc.closed = true", "\tif c.closed {\n\t\tc.mux.Unlock()\n\n\t\treturn nil\n\t}\n\tc.closed = true"),
- ("c15-no-wg-wait", "C15", "client.go", "\tclose(c.close)\n\tc.wg.Wait()", "\tclose(c.close)"),
- ("c15-closeconn-ignored", "C15", "client.go", "\tif c.closeConn {\n\t\tconnErr = c.c.Close()", "\tif c.closeConn || agentErr != nil {\n\t\tconnErr = c.c.Close()"),
+ ("c15-no-wg-wait", "C15", "client.go", "\tagentErr := c.a.Close()\n\tc.wg.Wait()", "\tagentErr := c.a.Close()"),
+ ("c15-closeconn-ignored", "C15", "client.go", "\tif c.closeConn {\n\t\tconnErr = c.c.Close()", "\tif c.closeConn || c.handler != nil {\n\t\tconnErr = c.c.Close()"),
+ ("c15-conn-close-after-collector", "C15", "client.go", "\tvar connErr error\n\tif c.closeConn {\n\t\tconnErr = c.c.Close()\n\t}\n\tif closeErr := c.collector.Close(); closeErr != nil {\n\t\treturn closeErr\n\t}\n", "\tvar connErr error\n\tif closeErr := c.collector.Close(); closeErr != nil {\n\t\treturn closeErr\n\t}\n\tif c.closeConn {\n\t\tconnErr = c.c.Close()\n\t}\n"),
  ("c15-closeerr-drops-conn", "C15", "client.go", "\treturn CloseErr{\n\t\tAgentErr:      agentErr,\n\t\tConnectionErr: connErr,\n\t}", "\treturn CloseErr{\n\t\tAgentErr:      agentErr,\n\t\tConnectionErr: agentErr,\n\t}"),
  # C17
  ("c17-default-port-swapped", "C17", "uri.go", "defaultPort := DefaultPort\n\t\tif uri.Scheme == SchemeTypeSTUNS || uri.Scheme == SchemeTypeTURNS {", "defaultPort := DefaultPort\n\t\tif uri.Scheme == SchemeTypeSTUNS || uri.Scheme == SchemeTypeTURN {"),
